@@ -364,8 +364,36 @@ class LBox(LExpr):
     more: list[LItem]
 
 
+@dataclass
+class LTail(LExpr):
+    tag: Annotated[str, VarRange(["a", "b"])]  # a generated field declared BEFORE the one values are handed down to
+    level: Annotated[int, IntRange(0, 3)]
+    note: Annotated[str, VarRange(["p", "q"])]
+
+
 def levels_grammar():
-    return extract_grammar([LLeaf, LNest, LBox, LCoin], LExpr)
+    return extract_grammar([LLeaf, LNest, LBox, LCoin, LTail], LExpr)
+
+
+def level_type_errors(e, out=None) -> list:
+    """every field holds a value of its declared type (whatever was handed down, and wherever the field stands)"""
+    out = [] if out is None else out
+    if type(e.level) is not int:
+        out.append(f"{type(e).__name__}.level holds {e.level!r} where int is declared")
+    if isinstance(e, LTail):
+        for f in ("tag", "note"):
+            if type(getattr(e, f)) is not str:
+                out.append(f"LTail.{f} holds {getattr(e, f)!r} where str is declared")
+    if isinstance(e, LNest):
+        if not isinstance(e.body, LExpr):
+            out.append(f"LNest.body holds {e.body!r} where a production of LExpr is declared")
+        else:
+            level_type_errors(e.body, out)
+    if isinstance(e, LBox):
+        for c in [e.item] + list(e.more):
+            if not isinstance(c, LCoin) or type(c.level) is not int:
+                out.append(f"LBox holds {c!r} where an LCoin is declared")
+    return out
 
 
 def level_violations(e, out=None) -> list:
@@ -377,6 +405,8 @@ def level_violations(e, out=None) -> list:
         if e.body.level != expected:
             out.append(f"LNest(level={e.level}) has a body with level={e.body.level}, the dependent refinement demands {expected}")
         level_violations(e.body, out)
+    if isinstance(e, LTail) and not (e.tag in ("a", "b") and e.note in ("p", "q")):
+        out.append(f"LTail(tag={e.tag!r}, level={e.level!r}, note={e.note!r}): tag outside a/b or note outside p/q")
     if isinstance(e, LBox):
         for c in [e.item] + list(e.more):
             if not (type(c.level) is int and 7 <= c.level <= 9):
